@@ -565,6 +565,8 @@ def py_ints(env, mode, s):
         with warnings.catch_warnings():
             warnings.simplefilter('ignore')
             res = sm.parse_ints(s, 0, num, defaults, fields={})
+        if any(v is not None and abs(v) > 10 ** 600 for v in res[1:]):
+            return None                  # beyond the model's (and CPython's int -> str) limit
         return 'ok %d %s' % (len(s) - res[0], ' '.join('N' if v is None else str(v) for v in res[1:]))
     return macro_err(env, f)
 
@@ -658,8 +660,11 @@ def corr_functions(chk, env, gen):
             s = ''.join(rng.choice(('1', '$F', ',', '(', ')', '2+2', 'x', ' ', '$', '-', '10', 'g')) for _ in range(rng.randrange(0, 7)))
         if not safe_text(s):
             continue
+        r = py_ints(env, mode, s)
+        if r is None:
+            continue
         ops.append('I %s %s' % (mode, codes(s)))
-        impl.append(py_ints(env, mode, s))
+        impl.append(r)
         note_case(chk, 'parse_ints', ('I', mode, s), {'op': 'parse_ints', 'mode': mode, 'text': s, 'impl': impl[-1]})
     model = chk.run_driver('C17', ops)
     if model is None:
@@ -714,7 +719,8 @@ def corr_expand(chk, env, gen):
             probes = rng.sample(sorted(nums), min(4, len(nums))) + rng.sample(peeks, 2)
             for a in probes:
                 ops.append('K %d' % a)
-                impl.append('ok %d' % w.snapshot[a])
+                v = w.snapshot[a]
+                impl.append('ok %d' % v if abs(v) < 10 ** 1000 else 'ok huge')
                 info.append(None)
     model = chk.run_driver('C17', ops)
     if model is None:
@@ -1391,7 +1397,8 @@ def e2e_tools(chk, env, gen):
             chk.violation('tools-error-differ:' + macros_of(text), f'{text!r}: skool2asm -> {str(asm)[:120]!r}, skool2html -> {str(html)[:120]!r}', rep)
             continue
         n_ok += 1
-        if not probe.startswith('ok') or not probe_h.startswith('ok') or not charref_ok(decode(probe_h)) or not printable(decode(probe)):
+        if not probe.startswith('ok') or not probe_h.startswith('ok') or not charref_ok(decode(probe_h)) or not printable(decode(probe)) \
+                or '<' in decode(probe_h) or '>' in decode(probe_h):      # raw markup (#CHR(60,1)) cannot be told from tags
             continue                 # control characters do not survive the line formatting of either tool
         vals_a = set().union(*asm.values()) if asm else set()
         vals_h = set().union(*html.values()) if html else set()
